@@ -12,6 +12,7 @@ import (
 
 var monitors = map[string]func(*vk.Ctx){
 	"smoke": runSmoke,
+	"C06":   runC06,
 }
 
 func main() {
